@@ -20,6 +20,8 @@ THEOREMS = [
     "c17_roundtrip",
     "c17_cross_backend",
     "c17_big_int_stdlib",
+    "c17_memo_transparent",
+    "c17_memo_sequence",
 ]
 RULE = (
     "values: every JSON value of nesting depth<=2 over 10 leaves (null, booleans, 0, -1, 2^64-1, 1.5, '', 'a', U+2028) with arrays/objects of "
@@ -77,6 +79,19 @@ def _features(t):
     return f
 
 
+class J_debug:
+    """placeholder context (the workers switch logging themselves per item); kept for symmetry"""
+
+    def __init__(self, *ws):
+        pass
+
+    def __enter__(self):
+        return self
+
+    def __exit__(self, *exc):
+        return False
+
+
 class Codec(Suite):
     name = "codec"
 
@@ -109,6 +124,22 @@ class Codec(Suite):
             out.append({"g": "limits/" + tag, "v": v})
         for tag, v in J.directed_hardening():
             out.append({"g": "directed/" + tag, "v": v})
+        # text that looks like the syntax being written: as a value, as a key, nested, and on every encoder path
+        # (plain; the stdlib fall-back inside the orjson configuration is reached through nesting deeper than
+        # orjson's encoder accepts, which keeps the value inside the property's 64-bit domain)
+        srng = ctx.sub_rng("c17-syntax", budget)
+        for t in J.syntax_texts(srng, 120 if budget == "quick" else 3000):
+            kind_ = srng.randrange(4)
+            sv = J.S(t)
+            if kind_ == 0:
+                v = sv
+            elif kind_ == 1:
+                v = {"o": [[J.cps(t), sv]]}
+            elif kind_ == 2:
+                v = {"a": [sv, {"o": [[J.cps("k"), sv], [J.cps(t), {"a": [sv, None]}]]}]}
+            else:
+                v = J.chain("alt", 300, {"o": [[J.cps(t), {"a": [sv]}]]})
+            out.append({"g": "syntax-text", "v": v})
         d2 = J.exhaustive(LEAVES_D2, KEYS, 2, 2)
         out += [{"g": "exhaustive/depth<=2", "v": v} for v in d2]
         d3 = [v for v in J.exhaustive(LEAVES_D3, KEYS, 3, 2) if J.depth(v) == 3]
@@ -136,16 +167,21 @@ class Codec(Suite):
         ws = J.worker(block_orjson=True)
         vals = [c["v"] for c in cases]
         info = {"o": wo.call({"op": "info"}), "s": ws.call({"op": "info"})}
-        do = wo.call({"op": "dumps", "values": vals})
-        ds = ws.call({"op": "dumps", "values": vals})
+        do = wo.call({"op": "dumps", "values": vals, "debug_every": 4})
+        ds = ws.call({"op": "dumps", "values": vals, "debug_every": 4})
         texts, idx = [], []
         for i, (a, b) in enumerate(zip(do["out"], ds["out"])):
             for tag, r in (("o", a), ("s", b)):
                 if "text" in r:
                     idx.append((i, tag))
                     texts.append(r["text"])
-        lo = wo.call({"op": "loads", "texts": texts})["out"]
-        ls = ws.call({"op": "loads", "texts": texts})["out"]
+        lo = wo.call({"op": "loads", "texts": texts, "debug_every": 3})["out"]
+        ls = ws.call({"op": "loads", "texts": texts, "debug_every": 3})["out"]
+        if not getattr(self, "_churned", False):
+            # once per run: a long session (more distinct short documents than any cache holds, decoded, edited, decoded again)
+            self._churned = True
+            with J_debug(wo, ws):
+                self.churn = {"o": wo.call({"op": "churn"}), "s": ws.call({"op": "churn"})}
         small = [i for i, c in enumerate(cases) if not J.is_compact(c["v"])]
         ro = wo.call({"op": "reuse", "values": [vals[i] for i in small]})["out"]
         rs = ws.call({"op": "reuse", "values": [vals[i] for i in small]})["out"]
@@ -161,6 +197,9 @@ class Codec(Suite):
             obs[i]["loads"][tag + "s"] = b
         for i, a, b in zip(small, ro, rs):
             obs[i]["reuse"] = {"o": a, "s": b}
+        if getattr(self, "churn", None) and obs:
+            obs[0]["churn"] = self.churn
+            self.churn = None
         self._obs = {id(c): o for c, o in zip(cases, obs)}
         self._tok = getattr(self, "_tok", {})
         self._tok["o"] = {**self._tok.get("o", {}), **do["tokens"]}
@@ -243,6 +282,11 @@ class Codec(Suite):
             if "\n" in d["text"] or "\r" in d["text"]:
                 return ("raw-line-break/" + tag, f"compact encoding contains a raw line break ({name}): {d['text']!r:.200}",
                         {"line_breaks": 0})
+        for tag, r in (o.get("churn") or {}).items():
+            name = "orjson importable" if tag == "o" else "orjson absent"
+            if r.get("bad"):
+                return ("long-session/" + tag, f"in a long session (1500 distinct short documents decoded, edited, decoded again; 1000 encodes of one "
+                        f"object) a later call differs from the first: {r['bad']} ({name})", None)
         for tag, r in (o.get("reuse") or {}).items():
             name = "orjson importable" if tag == "o" else "orjson absent"
             if r.get("dumps_sees_mutation") is False or r.get("dumps_repeatable") is False:
@@ -251,7 +295,7 @@ class Codec(Suite):
                 return ("aliased-loads/" + tag, f"decoding the same text twice does not give independent, equal values ({name})", None)
         if not J.fits64(v):
             return None
-        want = core.canon(J.unordered(v))
+        want = core.canon(J.unordered(J.normal(v) if J.is_compact(v) else v))
         for wtag in ("o", "s"):
             for rtag in ("o", "s"):
                 got = o["loads"].get(wtag + rtag)
@@ -292,6 +336,8 @@ class EntryPoints(Suite):
         vals = [v for _, v in J.directed() if not J.is_compact(v)][:: (6 if budget == "quick" else 1)]
         vals += [v for tag, v in J.directed_hardening() if tag in ("falsy", "twin", "text")][:: (5 if budget == "quick" else 1)]
         vals += [J.chain("alt", d, {"s": J.cps("é")}) for d in (200, 1100)]
+        srng = ctx.sub_rng("c17-entry-syntax", budget)
+        vals += [{"o": [[J.cps(t), {"a": [J.S(t)]}]]} for t in J.syntax_texts(srng, 10 if budget == "quick" else 300)[:: (3 if budget == "quick" else 1)]]
         vals += [J.rand_value(rng, rng.choice([3, 4, 5]), 0.0, 3) for _ in range(150 if budget == "quick" else 3000)]
         out = []
         for i, v in enumerate(vals):
@@ -314,16 +360,16 @@ class EntryPoints(Suite):
     def impl_batch(self, cases):
         wo, ws = J.worker(block_orjson=False), J.worker(block_orjson=True)
         items = [{"v": c["v"], "how": c["how"]} for c in cases]
-        do = wo.call({"op": "dumps2", "items": items})["out"]
-        ds = ws.call({"op": "dumps2", "items": items})["out"]
+        do = wo.call({"op": "dumps2", "items": items, "debug_every": 3})["out"]
+        ds = ws.call({"op": "dumps2", "items": items, "debug_every": 3})["out"]
         reads, idx = [], []
         for i, (c, a, b) in enumerate(zip(cases, do, ds)):
             for tag, r in (("o", a), ("s", b)):
                 if "text" in r:
                     idx.append((i, tag))
                     reads.append({"t": r["text"], "how": c["read"]})
-        lo = wo.call({"op": "loads2", "items": reads})["out"]
-        ls = ws.call({"op": "loads2", "items": reads})["out"]
+        lo = wo.call({"op": "loads2", "items": reads, "debug_every": 4})["out"]
+        ls = ws.call({"op": "loads2", "items": reads, "debug_every": 4})["out"]
         obs = [{"dumps": {"o": a, "s": b}, "loads": {}} for a, b in zip(do, ds)]
         for (i, tag), a, b in zip(idx, lo, ls):
             obs[i]["loads"][tag + "o"] = a
@@ -344,7 +390,7 @@ class EntryPoints(Suite):
                 return (f"raw-line-break/{how}/{tag}", f"compact encoding via {how} contains a raw line break ({name})", None)
         if not fits:
             return None
-        want = core.canon(J.unordered(v))
+        want = core.canon(J.unordered(J.normal(v) if J.is_compact(v) else v))
         for wtag in ("o", "s"):
             for rtag in ("o", "s"):
                 got = o["loads"].get(wtag + rtag)
